@@ -34,7 +34,7 @@ type planSeg struct {
 	merges int    // merge depth
 }
 
-var planClasses = []string{"same-nodrops", "same-drops", "different", "empty-inputs", "nothing-survives", "chain", "tall", "random", "single-input", "updates"}
+var planClasses = []string{"tall-edge", "same-nodrops", "same-drops", "different", "empty-inputs", "nothing-survives", "chain", "tall", "random", "single-input", "updates"}
 
 type mergeDesc struct {
 	Class     string   `json:"class"`
@@ -125,8 +125,11 @@ func mergeWorkload(c *Ctx, slice int) {
 		}
 		rng := c.Rng(i)
 		class := planClasses[i%len(planClasses)]
-		if class == "tall" && i%(len(planClasses)*c.N(4, 3)) != 6 {
+		if class == "tall" && i%(len(planClasses)*c.N(4, 3)) != 7 {
 			class = "random" // tall plans are big: only every few rounds
+		}
+		if class == "tall-edge" && i%(len(planClasses)*2) != 0 {
+			class = "different"
 		}
 		runMergePlan(c, i, rng, class, slice)
 	}
@@ -172,6 +175,19 @@ func runMergePlan(c *Ctx, i int, rng *rand.Rand, class string, slice int) {
 				o.Names = nil // different field lists: re-encode path
 			}
 			o.Syn, o.Vec = false, false
+		case "tall-edge":
+			// cardinalities next to a multiple of 1024, a term missing from the
+			// earlier (small, heavily deleted) input: writer and reader must
+			// agree on the chunk size computed from the surviving cardinality
+			o.Names, o.Syn, o.Vec = sharedNames[:1], false, false
+			if l == nLeaves-1 {
+				cl = "tall"
+				o.Docs = []int{1024, 2048}[rng.Intn(2)] + rng.Intn(48) - 8
+				o.Terms, o.Always, o.HasAlways = []string{"t", "b", "k"}, "t", true
+			} else {
+				cl = "mid"
+				o.Terms = []string{"a", "b", "k"}
+			}
 		case "updates":
 			o.IDPrefix = "u-" // same ids in every segment, older copies deleted below
 			o.NoDupIDs = true
@@ -212,6 +228,9 @@ func runMergePlan(c *Ctx, i int, rng *rand.Rand, class string, slice int) {
 		if class == "single-input" {
 			k = 1
 		}
+		if class == "tall-edge" {
+			k = nLeaves // all leaves, in order: the small ones first
+		}
 		if k > pool {
 			k = pool
 		}
@@ -227,6 +246,10 @@ func runMergePlan(c *Ctx, i int, rng *rand.Rand, class string, slice int) {
 					st.inputs = append(st.inputs, p)
 				}
 			}
+		} else if class == "tall-edge" {
+			for x := 0; x < k; x++ {
+				st.inputs = append(st.inputs, x)
+			}
 		} else {
 			st.inputs = append(st.inputs, perm[:k]...)
 		}
@@ -241,6 +264,8 @@ func runMergePlan(c *Ctx, i int, rng *rand.Rand, class string, slice int) {
 				style = 5
 			case "tall":
 				style = []int{0, 4, 2, 4}[rng.Intn(4)]
+			case "tall-edge":
+				style = []int{2, 4, 0, 3}[rng.Intn(4)]
 			}
 			st.styles = append(st.styles, style)
 		}
@@ -248,7 +273,7 @@ func runMergePlan(c *Ctx, i int, rng *rand.Rand, class string, slice int) {
 		if rng.Intn(3) == 0 {
 			st.mode = modeFor(i+s+1, rng) // output chunk mode may differ from the inputs'
 		}
-		if class == "tall" {
+		if class == "tall" || class == "tall-edge" {
 			st.mode = []uint32{1026, 1025, 1026, 1024}[rng.Intn(4)]
 		}
 		var ims []*model.Seg
